@@ -65,7 +65,8 @@ def check(run: Run, prog: Program, model: Model, tier: str) -> None:
         "induction over the schema tree (each method is checked assuming members satisfy the same contract).")
     run.rule_text = ("obligations = distinct (method, error class / descent site / index site) instances over all explored paths; "
                      "non-trivial = provenance established through inlined helpers, loop variables or aliasing locals")
-    run.trusted += ["th.PathHolder.__getitem__/__getattr__ append to the holder in place and return it",
+    run.trusted += ["th.PathHolder.__getitem__/__getattr__ append to the holder in place and return it; its __copy__ is shallow "
+                    "(shares the accessor list) - read from the installed th 0.4.1 source as documentation",
                     "copy.deepcopy yields an independent PathHolder"]
     errs = error_classes(prog)
     if len(errs) < 16:
@@ -198,6 +199,11 @@ def _check_path(prog: Program, errs: Dict[str, ClassInfo], vis: str, hook: str, 
                 record("PATH-OWNERSHIP", construct, "HOLDS", site, "indexed object is a fresh deepcopy")
             elif isinstance(recv, Term) and recv.op == "call" and "PathHolder" in recv.key():
                 record("PATH-OWNERSHIP", construct, "HOLDS", site, "indexed object is a freshly constructed holder")
+            elif isinstance(recv, Term) and recv.op == "copy":
+                record("PATH-OWNERSHIP", construct, "VIOLATED", site,
+                       "a shallow copy.copy() of a PathHolder shares its accessor list with the original, so indexing it "
+                       "appends to the original path as well",
+                       "paths of later siblings and of already reported errors grow")
             elif is_cur_path(recv) or (isinstance(recv, Term) and recv.op == "attr"):
                 record("PATH-OWNERSHIP", construct, "VIOLATED", site,
                        "a PathHolder that is not owned (parameter / attribute) is indexed, which appends to it in place",
@@ -269,10 +275,13 @@ def _fact_agree(prog: Program, p: Path, e: Event, cls: str, args: List[V], const
             tried = [ev for ev in p.events if ev.kind == "accept"]
             record("FACT-AGREE", c2, "HOLDS" if tried and all(t.data["recv"].key() in ak for t in tried) else "UNDECIDED", site,
                    "expected_schemas are the alternatives that were visited")
-        else:
+        elif (isinstance(a, Sym) and a.origin and a.origin[0] == "prop") or isinstance(a, Const):
             record("FACT-AGREE", c2, "VIOLATED", site,
-                   f"argument {ak[:60]} is not an operand of any guard taken on this path",
+                   f"argument {ak[:60]} is a declared constraint / constant that no guard on this path tested",
                    "the error states a bound / key / pattern different from the one that was checked")
+        else:
+            record("FACT-AGREE", c2, "UNDECIDED", site,
+                   f"argument {ak[:60]} could not be related to a guard on this path")
 
 
 def _check_formatter(run: Run, prog: Program, errs: Dict[str, ClassInfo]) -> None:
@@ -318,6 +327,10 @@ def _check_formatter(run: Run, prog: Program, errs: Dict[str, ClassInfo]) -> Non
                     if src is not None and isinstance(src, ast.Call) and isinstance(src.func, ast.Name) and src.func.id == "deepcopy":
                         run.holds("PATH-OWNERSHIP", f"{construct}: index {x.value.id}", f"{m.module.path}:{x.lineno}",
                                   "indexed object is deepcopy(error.path)", nontrivial=True)
+                    elif src is not None and isinstance(src, ast.Call) and isinstance(src.func, ast.Name) and src.func.id == "copy":
+                        run.violated("PATH-OWNERSHIP", f"{construct}: index {x.value.id}", f"{m.module.path}:{x.lineno}",
+                                     "shallow copy(error.path) shares the accessor list: indexing it mutates the error's own path",
+                                     "formatting an error twice yields two different messages")
                     elif src is not None and isinstance(src, ast.Attribute) and src.attr == "path":
                         run.violated("PATH-OWNERSHIP", f"{construct}: index {x.value.id}", f"{m.module.path}:{x.lineno}",
                                      "alias of error.path indexed in place", "formatting an error twice yields two different messages")
@@ -405,4 +418,13 @@ MUTANTS = [
     {"name": "neutral: error bound to a local before add_error", "expect": "SILENT",
      "edits": [(V_, "                result.add_error(MinValueValidationError(path, value, schema.props.min))\n\n        if schema.props.max is not Nil:\n            if value > schema.props.max:\n                result.add_error(MaxValueValidationError(path, value, schema.props.max))\n\n        return result\n\n    def visit_float",
                 "                err = MinValueValidationError(path, value, schema.props.min)\n                result.add_error(err)\n\n        if schema.props.max is not Nil:\n            if value > schema.props.max:\n                result.add_error(MaxValueValidationError(path, value, schema.props.max))\n\n        return result\n\n    def visit_float")]},
+]
+
+MUTANTS += [
+    {"name": "formatter uses a shallow copy of the path", "rule": "PATH-OWNERSHIP",
+     "edits": [(F_, "        path = deepcopy(error.path)\n        formatted_path = self._format_path(path[error.index])", "        path = copy(error.path)\n        formatted_path = self._format_path(path[error.index])"),
+               (F_, "from copy import deepcopy", "from copy import copy, deepcopy")]},
+    {"name": "neutral: alias chains unwrapped iteratively (path still forwarded)", "expect": "SILENT",
+     "edits": [(V_, "        return schema.props.type.__accept__(self, value=value, path=path, **kwargs)",
+                "        target = schema.props.type\n        while isinstance(target, GenericTypeAliasSchema):\n            target = target.props.type\n        return target.__accept__(self, value=value, path=path, **kwargs)")]},
 ]
